@@ -757,35 +757,60 @@ func (a *NXActionCTNAT) SetPersistent() error {
 	return nil
 }
 
+// resize: the action is its fixed part and the range parts that are set, whatever the order and
+// number of setter calls and whether Len() has rounded the length in between
+func (a *NXActionCTNAT) resize() {
+	n := uint16(16)
+	if a.rangeIPv4Min != nil {
+		n += 4
+	}
+	if a.rangeIPv4Max != nil {
+		n += 4
+	}
+	if a.rangeIPv6Min != nil {
+		n += 16
+	}
+	if a.rangeIPv6Max != nil {
+		n += 16
+	}
+	if a.rangeProtoMin != nil {
+		n += 2
+	}
+	if a.rangeProtoMax != nil {
+		n += 2
+	}
+	a.Length = n
+}
+
 func (a *NXActionCTNAT) SetRangeIPv4Min(ipMin net.IP) {
 	a.rangeIPv4Min = ipMin
 	a.rangePresent |= NX_NAT_RANGE_IPV4_MIN
-	a.Length += 4
+	a.resize()
 }
 func (a *NXActionCTNAT) SetRangeIPv4Max(ipMax net.IP) {
 	a.rangeIPv4Max = ipMax
 	a.rangePresent |= NX_NAT_RANGE_IPV4_MAX
-	a.Length += 4
+	a.resize()
 }
 func (a *NXActionCTNAT) SetRangeIPv6Min(ipMin net.IP) {
 	a.rangeIPv6Min = ipMin
 	a.rangePresent |= NX_NAT_RANGE_IPV6_MIN
-	a.Length += 16
+	a.resize()
 }
 func (a *NXActionCTNAT) SetRangeIPv6Max(ipMax net.IP) {
 	a.rangeIPv6Max = ipMax
 	a.rangePresent |= NX_NAT_RANGE_IPV6_MAX
-	a.Length += 16
+	a.resize()
 }
 func (a *NXActionCTNAT) SetRangeProtoMin(protoMin *uint16) {
 	a.rangeProtoMin = protoMin
 	a.rangePresent |= NX_NAT_RANGE_PROTO_MIN
-	a.Length += 2
+	a.resize()
 }
 func (a *NXActionCTNAT) SetRangeProtoMax(protoMax *uint16) {
 	a.rangeProtoMax = protoMax
 	a.rangePresent |= NX_NAT_RANGE_PROTO_MAX
-	a.Length += 2
+	a.resize()
 }
 
 func (a *NXActionCTNAT) UnmarshalBinary(data []byte) error {
